@@ -10,9 +10,11 @@ sys.path.insert(0, os.path.dirname(__file__))
 
 KIND_FIELDS = ("TypeEnum", "OnCompletion", "ApplicationID")
 
+import urllib.parse
+
 def split_tok(tok):
     f = tok.split(',')
-    return int(f[0]), f[2], f[3:]
+    return int(f[0]), f[2], [urllib.parse.unquote(x) for x in f[3:]]
 
 def shapes_of(toks):
     ops = [split_tok(t) for t in toks]
